@@ -1,15 +1,22 @@
 """C01 — coarse-grained mapping: Lean theorems (normalised weights, force weights, mass, rejection beyond half the shortest height,
 translation, image invariance, convex hull) + exact-rational correspondence through the real pipeline
 CGEngine::LoadMoleculeType -> CreateCGTopology -> TopologyMap::Apply compiled from the working tree."""
-import glob, os
+import glob, os, re, sys
 import vlib, vbuild
 
 PROP = "C01"
 HARNESS = os.path.join(vlib.VERIF, "harness", "c01.cc")
 
 
+EXE_HARNESS = os.path.join(vlib.VERIF, "harness", "c01m.py")
+
+
 def build():
     return vbuild.build_exe("c01", [HARNESS], ["tools", "csg"])
+
+
+def build_map():
+    return vbuild.build_exe("csg_map", [vbuild.REPO + "/csg/src/tools/csg_map.cc"], ["tools", "csg"])
 
 
 def run(tier, seed, replay=None):
@@ -23,9 +30,19 @@ def run(tier, seed, replay=None):
         return ck.finish(ob, rule="-")
     if not ob.get("driver_ok", True):
         return ck.finish(ob, rule="-")
+    try:
+        mapexe = build_map()
+    except vbuild.BuildError as e:
+        ob["ok"] = False
+        ob["failures"].append("csg_map does not compile from the current source: " + str(e)[-400:])
+        return ck.finish(ob, rule="-")
     if replay:
-        rc, out, err = vlib.run_harness(exe, ["replay"], stdin=open(replay, "rb").read())
+        data = open(replay, "rb").read()
+        rc, out, err = vlib.run_harness(exe, ["replay"], stdin=data)
         ck.feed("replay", out)
+        if re.search(rb"C01 erun \d+:\d+", data):
+            rc, out, err = vlib.run_harness(sys.executable, [EXE_HARNESS, mapexe, "ids"], stdin=data)
+            ck.feed("replay (csg_map)", out)
         return ck.finish(ob, rule="replay of " + replay)
     corpus = b"".join(open(f, "rb").read() for f in sorted(glob.glob(os.path.join(vlib.VERIF, "corpus", PROP, "*.txt"))))
     if corpus:
@@ -37,17 +54,29 @@ def run(tier, seed, replay=None):
         if rc != 0:
             ck.aborts.append({"what": "harness exited %d: %s" % (rc, err[-300:]), "lines": []})
         ck.feed("random(n=%d)" % n, out)
+    def go_exe(n, sd):
+        rc, out, err = vlib.run_harness(sys.executable, [EXE_HARNESS, mapexe, "rand", str(n)], env={"VERIF_SEED": str(sd)}, timeout=3000)
+        if rc != 0:
+            ck.aborts.append({"what": "csg_map harness exited %d: %s" % (rc, err[-300:]), "lines": []})
+        ck.feed("csg_map runs (n=%d)" % n, out)
     go(6000 if tier == "quick" else 150000, seed)
+    go_exe(150 if tier == "quick" else 4000, seed)
     if ((not ob["ok"]) or ck.disagree) and not ck.propfail and tier == "quick":
         ck.notes.append("obligation or correspondence broken: widened search")
         go(40000, seed + 1000)
+        go_exe(800, seed + 1000)
     return ck.finish(
         ob,
         rule="generated molecules of 1..6 parents mapped to one bead (spherical and ellipsoidal), open / orthorhombic / reduced triclinic boxes, "
              "parents cut by 0..3 faces or thousands of images away, compact and too-wide molecules (about 20 % rejected), zero weights, d "
              "coefficients, missing positions/velocities/forces, count mismatches; every case re-run with one non-first parent moved by a lattice "
-             "vector and with all atoms translated. exact stream (2/3): dyadic data, weights with power-of-two totals, compared exactly; generic (1/3): 1e-8",
+             "vector and with all atoms translated. exact stream (2/3): dyadic data, weights with power-of-two totals, compared exactly; generic (1/3): 1e-8. "
+             "executable leg: complete runs of the real csg_map (XML topology, two mapping files with random weights, optional d coefficients and zero weights, "
+             "1-6 frames each with its own box) for the format pairs gro/dump -> gro/dump with --vel / --force; one run in seven has a molecule wider than half the "
+             "box and must be refused; every written bead (position, velocity, force) compared with the model within the resolution of the output format",
         assumptions=["IEEE rounding not modelled (exact stream avoids it); the half-box test compares rounded norms: cases within 1e-9 of the limit are not judged",
+                     "executable leg: the readers' unit conversion of the dump format (stod(s)*ang2nm, *kcal2kj/ang2nm; constants read from constants.h) is reproduced by the harness; "
+                     "written values are compared within the output resolution (gro: 6e-4 nm / 6e-5 nm/ps; dump: 2e-7 nm, forces 1e-4 relative-absolute); masses are not observable in these formats",
                      "mapping XML goes through the real Property/Tokenizer parser; the orientation part of the ellipsoidal map is outside the property",
                      "translation / hull clauses judged only when every parent has a position (otherwise the weights in play do not sum to one)"],
         trivial_tags=())
